@@ -225,6 +225,23 @@ def _str(I, x=''):
     return str(x)
 
 
+@reg('setattr')
+def _setattr(I, x, name, val):
+    if not isinstance(name, str):
+        raise Unsupported('setattr with a symbolic attribute name')
+    I.setattr(x, name, val)
+
+
+@reg('delattr')
+def _delattr(I, x, name):
+    from .values import SObj
+    if not isinstance(name, str) or not isinstance(x, SObj):
+        raise Unsupported('delattr with a symbolic attribute name / on a non-object')
+    if name not in x.attrs:
+        raise PyRaise('AttributeError')
+    del x.attrs[name]
+
+
 @reg('slice')
 def _slice(I, *args):
     return slice(*args)
